@@ -648,6 +648,10 @@ func isRedactableFieldPatternInArray(arr []any) bool {
 }
 
 func redactArrayValuesWithKey(parentKey string, arr []any, redactFieldNames bool, isSearchStage bool, isSelectivelyRedactable bool, keyPath []string) []any {
+	if !isSelectivelyRedactable && reMatchesAnyKeyInPath(&keyPath, redactedFieldsRegexp) {
+		// an ancestor field matches --redactFieldsRegexp: the array elements are selected too
+		isSelectivelyRedactable = true
+	}
 	for i, item := range arr {
 		switch itemTyped := item.(type) {
 		case *orderedmap.OrderedMap[string, any]:
